@@ -319,7 +319,7 @@ func RunCase(app *fx.App, tr *fx.Trace, r *fx.Rng) {
 	c := &caseT{app: app, ctx: ctx, tr: tr, r: r, tms: tsskeeper.NewMsgServerImpl(app.TSSKeeper), bms: bandtsskeeper.NewMsgServerImpl(app.BandtssKeeper),
 		reqs: []bandtesting.Account{bandtesting.Bob, bandtesting.Carol}, tokens: map[string]int{}}
 	c.height = int64(r.Range(10, 30))
-	c.faults = r.Chance(1, 3)
+	c.faults = r.Chance(1, 2)
 	c.now = 1_700_000_000_000_000_000 + int64(r.Range(0, 100))*1_000_000_000
 	c.setClock()
 	period, maxAtt, maxDE := c.setParams(false)
@@ -369,7 +369,7 @@ func RunCase(app *fx.App, tr *fx.Trace, r *fx.Rng) {
 	}
 	nops := r.Range(10, 45)
 	for i := 0; i < nops; i++ {
-		if c.faults && r.Chance(1, 7) {
+		if c.faults && r.Chance(1, 4) {
 			c.badDE()
 			continue
 		}
